@@ -53,6 +53,9 @@ func unmarshalQuestion(cond string) string {
 	case strings.Contains(c, "typ.Name") || strings.Contains(c, "GETTYPE.Name"):
 		return "type-missing"
 	case strings.Contains(c, "len(") && strings.Contains(c, ".Data"):
+		if strings.Contains(c, "== 0") || strings.Contains(c, "<= 0") || strings.Contains(c, "< 1") {
+			return "!rel-has-data" + it // the negated question: the answer is inverted when read
+		}
 		return "rel-has-data" + it
 	case strings.Contains(c, ".ToOne"):
 		return "rel-to-one" + it
@@ -130,7 +133,17 @@ func explorePaths(p *Prog, f *ssa.Function) []labelledPath {
 			case strings.Contains(n, "="):
 				lp.decisions = append(lp.decisions, n)
 				i := strings.LastIndex(n, "=")
-				lp.answer[n[:i]] = n[i+1:]
+				q, v := n[:i], n[i+1:]
+				if strings.HasPrefix(q, "!") {
+					q = q[1:]
+					switch v {
+					case "true":
+						v = "false"
+					case "false":
+						v = "true"
+					}
+				}
+				lp.answer[q] = v
 			}
 		}
 		// outcome
